@@ -1,6 +1,8 @@
 """C04 — Every run ends once, and its stream ends with the matching terminal event."""
 from props._engine_common import run_l1, run_l2, report_l2
-from suites import engine_specs as S
+import random
+
+from suites import engine as E, engine_specs as S
 from workflows.errors import WorkflowCancelledByUser, WorkflowTimeoutError
 from workflows.events import (StopEvent, WorkflowCancelledEvent, WorkflowFailedEvent, WorkflowTimedOutEvent)
 from workflows.runtime.types.commands import (CommandCompleteRun, CommandFailWorkflow, CommandHalt,
@@ -89,12 +91,51 @@ def l2_monitor(spec, rec, obs):
                  "late_publishes": 1 if obs.leftover else 0}
 
 
+async def _late_consumer(seed):
+    """a run that publishes a burst of N stream events and ends (result or failure) while nobody reads the stream; the
+    consumer attaches only afterwards and must still get every event, the terminal event last, and the end of stream"""
+    import asyncio
+    import vloop
+    from suites.wfevents import U6
+    from workflows.events import StartEvent, StopEvent
+    rng = random.Random(seed)
+    n = rng.choice([50, 2100, 2600, 3000])
+    fail = rng.random() < 0.4
+    spec = dict(steps={"a_start": dict(accepts=[StartEvent], returns=[StopEvent], num_workers=1,
+                                       script=[("publish_many", U6, n)] + ([("raise", "value", "boom")] if fail else [("return", StopEvent)]))})
+    rec = E.Recorder()
+    wf = E.build_workflow(spec, rec)
+    handler = wf.run()
+    exc = None
+    try:
+        await handler
+    except BaseException as ex:  # noqa: BLE001
+        exc = ex
+    await vloop.settle()
+    got, ended = [], False
+
+    async def consume():
+        async for ev in handler.stream_events(expose_internal=True):
+            got.append(ev)
+    t = asyncio.ensure_future(consume())
+    for _ in range(50):
+        await vloop.settle()
+        if t.done():
+            break
+    ended = t.done()
+    if not ended:
+        t.cancel()
+        await asyncio.gather(t, return_exceptions=True)
+    return dict(n=n, fail=fail, exc=exc, got=got, ended=ended)
+
+
 def run(ctx):
     ctx.rule = ("L1: random reachable reducer histories, terminal-event/exit-command pairing on every real transition; L2: "
                 "generated workflows ending in every way (result, step failure with/without retries, raising retry policy, "
                 "raising retry predicate, non-event return, racing StopEvents (also with siblings that publish while "
                 "being cancelled), cancel_run at a random moment, workflow timeout, body publishing while cancelled) on the real engine under virtual time; the full stream, the "
-                "handler outcome and the publish queue after the end are checked; distinct key = history index / run facts")
+                "handler outcome and the publish queue after the end are checked; runs that publish a burst of 50-3000 events and "
+                "end before any consumer attaches; distinct key = history index / run facts")
     ctx.prove()
     run_l1(ctx, ctx.n(100, 4000), l1_monitor, THEOREMS, need=("complete_run", "fail_workflow", "tick_TickCancelRun", "tick_TickTimeout"))
     modes = ["result", "step_fail", "policy_raises", "pred_raises", "other_return", "stop_race", "cancel", "timeout",
@@ -106,6 +147,32 @@ def run(ctx):
     if known:
         ctx.finding(K_CANCEL_PUBLISH, known[0]["why"], dict(kind="implementation-monitor/L2", input=known[0], occurrences=len(known)))
     report_l2(ctx, other)
+    # late consumers of runs that published a burst of events
+    import vloop
+    from suites.wfevents import U6
+    rng2 = random.Random(ctx.seed * 67 + 3)
+    nl, big = ctx.n(8, 40), 0
+    for i in range(nl):
+        seed = rng2.randrange(1 << 30)
+        r = vloop.run(_late_consumer(seed))
+        big += 1 if r["n"] > 2048 else 0
+        ctx.count(1, ("late-consumer", r["n"], r["fail"]))
+        want = "failed" if r["fail"] else "result"
+        terms = [(k, terminal_kind(e)) for k, e in enumerate(r["got"]) if terminal_kind(e)]
+        nu6 = sum(1 for e in r["got"] if isinstance(e, U6))
+        why = None
+        if not r["ended"]:
+            why = "stream_events() of a finished run (%s) never terminated for a consumer that attached after the end; it had delivered %d events, terminal events %s" % (want, len(r["got"]), terms)
+        elif len(terms) != 1 or terms[0][1] != want or terms[0][0] != len(r["got"]) - 1:
+            why = "a consumer that attached after the end of the run (%s) got terminal events %s among %d events" % (want, terms, len(r["got"]))
+        elif nu6 != r["n"]:
+            why = "a consumer that attached after the end got %d of the %d events published before the terminal event" % (nu6, r["n"])
+        if why:
+            ctx.violation("C04 fails on the real engine: %s" % why,
+                          dict(kind="implementation-monitor/L2", input=dict(template="burst of %d published events, late consumer" % r["n"], seed=seed, fails=r["fail"])))
+    ctx.programs += nl
+    ctx.suite("engine.late_consumer", runs=nl, bursts_over_2048=big)
+    ctx.require_coverage("engine.late_consumer", "bursts_over_2048", big, 2)
     from props._engine_common import run_runnerdiff
     run_runnerdiff(ctx, ctx.n(60, 1500), 'C04_exit_freezes_the_run / C04_nothing_published_after_exit')
 
